@@ -1,11 +1,12 @@
 #!/usr/bin/env python3
 """write seeded/INDEX.md and benign/INDEX.md from the meta.json files (which checks catch which change)"""
-import json
+import json, os
 
 
 def _s(x):
     return ', '.join(map(str, x)) if isinstance(x, list) else str(x or '')
-, os
+
+
 V = os.path.dirname(os.path.dirname(os.path.abspath(__file__)))
 rows = []
 for d in sorted(os.listdir(os.path.join(V, 'seeded'))):
